@@ -125,6 +125,10 @@ type layer2 struct {
 	kind      int
 	ids       []*ident
 	restEntry int
+	// REST: which header / write sequences the handlers of the run use (resthdr_test.go): 0 one
+	// WriteHeader at most, 1 also informational responses and implicit statuses, 2 also superfluous
+	// WriteHeader calls
+	restShapes int
 	// sqlx: the SqlConn objects of the run were built with WithAcceptable(duplicate key)
 	sqlAcceptDup bool
 	// zrpc: 0 the harness creates the breakers of the interceptors' names before the first call;
@@ -150,6 +154,10 @@ func (l *layer2) fixPlan(p *plan, forceIdent int) {
 	case wrapREST:
 		p.entry = l.restEntry
 		p.ctx = ctxNone // the middleware asks the breaker without a context
+		p.shape = drawShape(t, l.restShapes, false)
+		if p.shape != shPlain {
+			p.hsub = t.Intn(12)
+		}
 	case wrapRPCServer:
 		p.entry = entRPCUnary
 		if t.Intn(4) == 3 {
@@ -197,6 +205,10 @@ func (l *layer2) setupREST() bool {
 	r, t := l.r, l.r.Tape
 	n := 1 + t.Intn(2)
 	engine := t.Intn(3) == 2
+	l.restShapes = t.Intn(3)
+	if l.restShapes > 0 {
+		r.Probe([]string{"", "rest-shapes-informational", "rest-shapes-superfluous-writeheader"}[l.restShapes])
+	}
 	l.restEntry = entRESTHandler
 	if engine {
 		l.restEntry = entRESTEngine
@@ -210,7 +222,7 @@ func (l *layer2) setupREST() bool {
 			}
 			c.servedBy = id
 			id.w.runReq(c)
-			restRespond(c, rw)
+			restRespond(id, c, rw)
 		}
 	}
 	// two routes: same path with another method, or another path
@@ -364,40 +376,6 @@ func (w *world) reqBegin(c *callRec) {
 
 func simDur(t *simrt.Tape) time.Duration { return time.Duration(t.Range(1, 999_999_999)) }
 
-func restRespond(c *callRec, rw http.ResponseWriter) {
-	p := c.p
-	pick := func(xs []int) int { return xs[p.variant%len(xs)] }
-	write := func(code int, body bool) {
-		rw.Header().Set("X-C01-Call", fmt.Sprint(c.id))
-		if code != 0 {
-			rw.WriteHeader(code)
-			c.wantCode = code
-		} else {
-			c.wantCode = http.StatusOK
-		}
-		if body && code != 204 && code != 304 {
-			c.wantBody = fmt.Sprintf("body-of-call-%d", c.id)
-			rw.Write([]byte(c.wantBody))
-		}
-	}
-	switch p.outcome {
-	case outOK:
-		write(pick(restOK), p.variant >= 6)
-	case outAccErr:
-		write(pick(restAcc), p.variant >= 6)
-	case outErr:
-		write(pick(restFail), p.variant >= 6)
-	case outPanic:
-		switch p.variant % 4 {
-		case 2:
-			write(http.StatusInternalServerError, false)
-		case 3:
-			write(http.StatusOK, true)
-		}
-		c.raise()
-	}
-}
-
 // rpcResult is what the wrapped gRPC handler / invoker returns.
 func (l *layer2) rpcResult(c *callRec, ctx context.Context) error {
 	p := c.p
@@ -538,7 +516,7 @@ func (l *layer2) call(p *plan) *callRec {
 	w.inflight++
 	doneAtInv := ctx != nil && ctx.Err() != nil
 	c.inv = w.stamp()
-	r.Ev("invoke2", int64(p.ident), int64(c.id), int64(p.entry), int64(p.outcome), int64(p.variant))
+	r.Ev("invoke2", int64(p.ident), int64(c.id), int64(p.entry), int64(p.outcome), int64(p.variant), int64(p.shape))
 	func() {
 		defer func() {
 			if v := recover(); v != nil {
@@ -551,9 +529,10 @@ func (l *layer2) call(p *plan) *callRec {
 		}
 		switch p.entry {
 		case entRESTHandler, entRESTEngine:
-			rec := httptest.NewRecorder()
+			rec := newRestRecorder()
 			c.rec = rec
 			hr := httptest.NewRequest(id.method, id.path, nil)
+			defer rec.finish() // also when the handler panics
 			id.h.ServeHTTP(rec, hr)
 		case entRPCUnary:
 			reply := &rpcReply{id: c.id}
@@ -608,6 +587,7 @@ func (l *layer2) call(p *plan) *callRec {
 	}
 	doneAtRet := ctx != nil && ctx.Err() != nil
 	l.classify(id, c, ctx, doneAtInv, doneAtRet)
+	w.probeInFlight(c)
 	r.Ev("return2", int64(p.ident), int64(c.id), int64(c.class), int64(c.ev))
 	if r.Tracing() {
 		code := 0
@@ -638,8 +618,19 @@ func (l *layer2) passThrough(c *callRec) (bool, string) {
 	switch l.kind {
 	case wrapREST:
 		rec := c.rec
-		if rec.Code != c.wantCode || rec.Body.String() != c.wantBody || rec.Header().Get("X-C01-Call") != fmt.Sprint(c.id) {
-			return false, fmt.Sprintf("handler wrote status %d body %q, the client got status %d body %q header %q", c.wantCode, c.wantBody, rec.Code, rec.Body.String(), rec.Header().Get("X-C01-Call"))
+		if rec.Code != c.wantCode || rec.Body.String() != c.wantBody || rec.sentHeader("X-C01-Call") != fmt.Sprint(c.id) {
+			return false, fmt.Sprintf("handler wrote status %d body %q, the client got status %d body %q header %q", c.wantCode, c.wantBody, rec.Code, rec.Body.String(), rec.sentHeader("X-C01-Call"))
+		}
+		if !sameInts(rec.infos, c.wantInfos) {
+			return false, fmt.Sprintf("handler sent the informational responses %v before its status %d, the client got %v", c.wantInfos, c.wantCode, rec.infos)
+		}
+		for _, v := range rec.infoCall {
+			if v != fmt.Sprint(c.id) {
+				return false, fmt.Sprintf("an informational response of call %d carried the header X-C01-Call=%q", c.id, v)
+			}
+		}
+		if c.noFlusher {
+			return false, "the ResponseWriter handed to the handler is no http.Flusher although the connection's is"
 		}
 		return true, ""
 	case wrapRPCServer, wrapRPCClient:
@@ -740,6 +731,13 @@ func (l *layer2) recordedAs(c *callRec) evKind {
 	case wrapSQL:
 		return sqlRecordedAs(c)
 	}
+	if l.kind == wrapREST && p.outcome != outPanic {
+		// the status a server sends for what the handler did: 5xx is a failure
+		if c.wantCode >= http.StatusInternalServerError {
+			return evFail
+		}
+		return evSucc
+	}
 	if p.outcome == outOK || p.outcome == outAccErr {
 		return evSucc
 	}
@@ -792,6 +790,14 @@ func bodyLayer2(r *simrt.Run, tier string) {
 		if ph.kind == phSustained && l.kind == wrapREST && t.Intn(3) == 2 {
 			ph.panicsOnly = true
 		}
+		if ph.kind == phSustained && l.kind == wrapREST {
+			// ... and ONE header / write sequence
+			ph.shape = drawShape(t, l.restShapes, true)
+			ph.hsub = t.Intn(12)
+		}
+		if ph.slow && l.kind >= wrapRedis {
+			ph.unslow()
+		}
 		if ph.kind == phSustained && l.kind == wrapSQL && t.Intn(2) == 1 {
 			// the one failure kind of the phase: the database is unreachable
 			ph.outage = true
@@ -812,6 +818,9 @@ func bodyLayer2(r *simrt.Run, tier string) {
 						p.outcome, p.variant = outErr, ph.variant
 					}
 					p.kind = ph.valKind // one error identity / one panic value, too
+					if l.kind == wrapREST {
+						p.shape, p.hsub = ph.shape, ph.hsub
+					}
 					if l.kind == wrapRedis && p.outcome == outErr {
 						p.variant = ph.variant % 2 // failures without retries and back-off: the phase stays dense
 					}
@@ -833,7 +842,7 @@ func bodyLayer2(r *simrt.Run, tier string) {
 			n += len(out)
 		}
 		total += n
-		descr = append(descr, fmt.Sprintf("%s(gap=%v clients=%d calls=%d fail%%=%d think-profile=%d focus-identity=%d failure-kind=%d/%d panics-only=%v backend-unreachable=%v)", phaseNames[ph.kind], ph.gap, len(ph.plans), n, ph.failPct, ph.profile, ph.ident, ph.variant, ph.valKind, ph.panicsOnly, ph.outage))
+		descr = append(descr, fmt.Sprintf("%s(gap=%v clients=%d calls=%d fail%%=%d think-profile=%d focus-identity=%d failure-kind=%d/%d panics-only=%v backend-unreachable=%v rest-handler-sequence=%s%s)", phaseNames[ph.kind], ph.gap, len(ph.plans), n, ph.failPct, ph.profile, ph.ident, ph.variant, ph.valKind, ph.panicsOnly, ph.outage, shapeNames[ph.shape], ph.longDescr()))
 	}
 	var lws []*world
 	if l.lazyMode > 0 {
@@ -873,6 +882,40 @@ func bodyLayer2(r *simrt.Run, tier string) {
 			b := l.ids[ph.ident].sql.b
 			b.setDown(b.schedDown, true)
 			r.Probe("sql-sustained-outage")
+		}
+		setOpensClass := func(w *world) {
+			w.opensClass = "does-not-open"
+			if ph.panicsOnly {
+				w.opensClass = "does-not-open/rest-handler-panics"
+				r.Probe("rest-sustained-panics")
+			}
+			if ph.outage {
+				w.opensClass = "does-not-open/sql-backend-unreachable"
+			}
+			switch {
+			case ph.shape == shPlain || ph.panicsOnly:
+			case shapeSuperfluous(ph.shape):
+				w.opensClass = "does-not-open/rest-superfluous-writeheader"
+				r.Probe("rest-sustained-superfluous-writeheader")
+			default:
+				w.opensClass = "does-not-open/rest-informational-before-status"
+				r.Probe("rest-sustained-1xx-before-5xx")
+			}
+		}
+		if ph.slow {
+			w := l.ids[ph.ident].w
+			fromB, ok := runSlow(r, pi, ph, w, func(p *plan) { l.call(p) })
+			if !ok {
+				return
+			}
+			settleAll(fmt.Sprintf("after slow sustained phase %d", pi))
+			if r.Failed() {
+				return
+			}
+			setOpensClass(w)
+			r.Probe("slow-sustained-" + wrapNames[l.kind])
+			w.checkOpensSlow(from, fromB, ph.spacing)
+			continue
 		}
 		if len(ph.plans) == 1 {
 			for i := range ph.plans[0] {
@@ -923,14 +966,7 @@ func bodyLayer2(r *simrt.Run, tier string) {
 		}
 		if ph.kind == phSustained {
 			w := l.ids[ph.ident].w
-			w.opensClass = "does-not-open"
-			if ph.panicsOnly {
-				w.opensClass = "does-not-open/rest-handler-panics"
-				r.Probe("rest-sustained-panics")
-			}
-			if ph.outage {
-				w.opensClass = "does-not-open/sql-backend-unreachable"
-			}
+			setOpensClass(w)
 			w.checkOpens(from, ph.spacing)
 		}
 		if ph.outage {
